@@ -413,7 +413,7 @@ func checkC09(p *Prog, rp *Report) {
 							} else {
 								f2 := fieldsOf(r.st, full, s2, map[string]bool{"Hidden": true})
 								// a multi-line value may gain one trailing newline on the first cycle (reader normal form)
-								if strings.TrimSuffix(f1["Long"], `"`) + `\n"` == f2["Long"] {
+								if strings.TrimSuffix(f1["Long"], `"`)+`\n"` == f2["Long"] {
 									f1["Long"] = f2["Long"]
 								}
 								for _, d := range diffFields(f1, f2) {
@@ -823,7 +823,6 @@ func fillProblems(r *Rule, key, pos string, problems []string, okMsg string) {
 	}
 	r.check(len(problems) == 0, key, pos, okMsg, strings.Join(problems, "; "))
 }
-
 
 func c09Types(p *Prog, rp *Report, supported map[string]bool) {
 	r := rp.Rule("C09-TYPES", "every field of the repository's document types is handled by both walkers", 40)
